@@ -45,6 +45,8 @@ TEMPLATES = [
     ('mstring',   ["s{k} = T({k}, '''", "    text{k}", "    ''')"]),
     # a line of a string literal that ends in blanks (significant: they are part of the value)
     ('mstrtrail', ["t{k} = T({k}, '''ab  ", "cd  ", "ef''')"]),
+    # a blank-only line inside a string literal: its blanks are part of the value
+    ('mstrblank', ["b{k} = T({k}, '''x", "      ", "y''')"]),
     ('for',       ['for i{k} in range(2):', '    P({k})']),
     ('while',     ['n{k} = 0', 'while n{k} < 1:', '    n{k} += 1; T({k})']),
     ('ifelse',    ['if T({k}) is None:', '    P({k})', 'else:', '    P(-{k})']),
@@ -66,7 +68,7 @@ TEMPLATES = [
     ('raise',     ['PX({k})']),
 ]
 TEMPLATE = dict(TEMPLATES)
-STRING_TEMPLATES = {'mstring', 'mstringtag'}
+STRING_TEMPLATES = {'mstring', 'mstringtag', 'mstrblank'}
 
 
 class _NV(object):
